@@ -18,7 +18,7 @@ PKG = os.path.join(REPO, "src", "gradient_free_optimizers")
 VERIF = os.path.dirname(os.path.dirname(os.path.abspath(__file__)))
 OUT = os.path.join(VERIF, "coq", "generated", "GridGen.v")
 INFO = os.path.join(VERIF, "coq", "generated", "grid_gen.json")
-FILES = ["optimizers/grid/diagonal_grid_search.py", "optimizers/grid/orthogonal_grid_search.py"]
+FILES = ["optimizers/grid/diagonal_grid_search.py", "optimizers/grid/orthogonal_grid_search.py", "optimizers/grid/grid_search.py"]
 ROOT_GUESS = "int(np.round(np.power(search_space_size, 1 / n_dims)))"
 
 
@@ -113,6 +113,34 @@ def orthogonal(out):
     return ["OrthogonalGridSearchOptimizer.grid_move", "OrthogonalGridSearchOptimizer.iterate"]
 
 
+def wrapper(out):
+    """grid/grid_search.py: GridSearchOptimizer only delegates -- iterate() and evaluate() forward to the back-end translated above, so the
+    back-end's nth_trial counts exactly the grid points issued; nothing else (no finish_initialization, no init_pos override) touches it.
+    Checked here: the method set, the two delegating bodies with their decorators, and __init__ by digest."""
+    tree = parse("optimizers/grid/grid_search.py")
+    cls = top_cls(tree, "GridSearchOptimizer", ["BaseOptimizer"])
+    meths = {f.name: f for f in cls.body if isinstance(f, ast.FunctionDef)}
+    if set(meths) != {"__init__", "iterate", "evaluate"}:
+        raise Abort("GridSearchOptimizer defines methods %s (expected __init__, iterate, evaluate: the wrapper only delegates)" % sorted(meths))
+    want = {"iterate": (["BaseOptimizer.track_new_pos"], "self", ["return self.grid_search_opt.iterate()"]),
+            "evaluate": (["BaseOptimizer.track_new_score"], "self, score_new", ["self.grid_search_opt.evaluate(score_new)"])}
+    for m, (decos, args, body) in want.items():
+        f = meths[m]
+        if [ast.unparse(d) for d in f.decorator_list] != decos or ast.unparse(f.args) != args or [ast.unparse(b) for b in f.body] != body:
+            raise Abort("GridSearchOptimizer.%s is no longer the plain delegation to the back-end" % m)
+    import hashlib as _h
+    lines = open(os.path.join(PKG, "optimizers/grid/grid_search.py")).read().split("\n")
+    f = meths["__init__"]
+    dig = _h.sha1("\n".join(l.rstrip() for l in lines[f.lineno - 1:f.end_lineno]).encode()).hexdigest()
+    pin = os.path.join(VERIF, "harness", "grid_pins.json")
+    if not os.path.exists(pin):
+        raise Abort("harness/grid_pins.json is missing")
+    if json.load(open(pin)).get("GridSearchOptimizer.__init__") != dig:
+        raise Abort("GridSearchOptimizer.__init__ changed: the construction of the back-end is pinned by digest")
+    out.append("(* grid/grid_search.py checked: GridSearchOptimizer = {__init__ (pinned), iterate, evaluate}, both plain delegations to the back-end *)")
+    return ["GridSearchOptimizer (delegation checked)"]
+
+
 HEADER = ["(* GENERATED by harness/translate_grid.py from %s -- do not edit. *)" % ", ".join(FILES),
           "Require Import Base PyPrims PyPrimsQ.",
           "From RecordUpdate Require Import RecordSet.",
@@ -129,7 +157,7 @@ def translate(write=True):
             h.update(open(os.path.join(PKG, rel), "rb").read())
         info["digest"] = h.hexdigest()
         out = list(HEADER)
-        info["methods"] = diagonal(out) + orthogonal(out)
+        info["methods"] = diagonal(out) + orthogonal(out) + wrapper(out)
         text = "\n".join(out) + "\n"
     except Abort as e:
         info.update(ok=False, error=str(e))
